@@ -13,7 +13,10 @@ def run(prog, rep, tier):
                   "chain produced; A7: build_exec/build_pred interpreted from source on a node of every sub-expression kind (?( ), [ ], let/infix operand, "
                   "*, +, if-else, ALT, OR, format splice, block) with every kind of operand (bare and SCOPE-wrapped), every outcome of a name lookup and "
                   "0-2 kept values: the operand's chain is always fed by an origin/tine created for it, never by the incoming stream (only a "
-                  "one-value SUBX_EVAL of a literal may be built in place); A8: in every function returning pred_result that can write an "
+                  "one-value SUBX_EVAL of a literal may be built in place); A1b: in every predicate `result` (stack-level and typed overloads) no assignment goes through, and no member function "
+                  "that may modify its object (fixpoint over field writes and mutating container members) is called on, an operand or anything handed out "
+                  "by reference/pointer from it (getters, top/get, downcasts, local references); the shared dwfl_context is exempt by name; "
+                  "A8: in every function returning pred_result that can write an "
                   "`Error…` message to std::cerr (directly or through a helper that always reports), forward dataflow over its CFG: no return is "
                   "reached with the error reported and a value that is provably yes or no (an erroring predicate answers fail, so neither ?x nor !x holds).")
     rep.not_decided = "that each predicate computes the documented truth value for its operands."
@@ -32,5 +35,6 @@ def run(prog, rep, tier):
     apply(rep, "A6", "let/infix/capture yield the outer stack, never the sub-expression's", r_pred.a6(prog), 2)
     import r_build
     apply(rep, "A7", "every sub-expression context builds its operand on a stream of its own, never on the incoming stack (abstract evaluation of build_exec)", r_build.a7(prog), 10)
+    apply(rep, "A1b", "predicates do not modify the values they are asked about (write-effect fixpoint over member functions; handles derived from operands)", r_pred.a1b(prog), 40)
     apply(rep, "A8", "a predicate that reports an error answers fail", r_pred.a8(prog), 4)
     maybe_mutants("C04", rep, tier)
